@@ -28,6 +28,10 @@ RULE = ("random forests: names chosen to sort before/after directory names and t
 NAMES = ["a", "b", "d", "d1", "d2", "a.txt", "z", "0", "d.x", "sub", "B", "_", "é", "a b", "d-1"]
 
 
+# replica folders are given on the command line in THIS order, which is not their alphabetical order ("order matters")
+REPLICA_NAMES = ["vault", "backup", "zeta", "archive", "disk2", "disk1", "copy10", "copy2"]
+
+
 def rr():
     from pyFileFixity import replication_repair
     return replication_repair
@@ -101,7 +105,7 @@ def run_dup(bs, replicas, d):
     os.makedirs(d)
     dirs = []
     for i, rep in enumerate(replicas):
-        root = os.path.join(d, "r%d" % i)
+        root = os.path.join(d, REPLICA_NAMES[i])
         os.makedirs(root)
         for p, c in rep.items():
             fp = os.path.join(root, *p.split("/"))
